@@ -3,6 +3,7 @@
 mod c04;
 mod c05;
 mod c06;
+mod c10;
 
 fn main() {
     let args = vmodel::ev::parse_args();
@@ -15,6 +16,7 @@ fn main() {
         "c04" | "c03a" => c04::run(&args.sub, &args),
         "c05" => c05::run(&args),
         "c06" => c06::run(&args),
+        "c10" => c10::run(&args),
         other => {
             eprintln!("unknown subcommand {}", other);
             std::process::exit(2);
